@@ -16,8 +16,8 @@ func init() {
 		Rule: "one run = one holder (TryLock, hold 1..300 heartbeat periods, Unlock) and 1..3 observers polling IsStale / ReleaseIfStale / TryLock over one SimDisk; " +
 			"enumerated part: the holder dies after its k-th filesystem operation for every k of the acquire path and the first heartbeats (k=0..15) x 1..3 observers x stall-free; random part: live holders (with and without I/O stalls) and deaths in steady state; " +
 			"non-trivial = at least one observer call evaluated the lock while it existed; distinct = distinct trace digest",
-		Real: []string{"utils/filesystem lockfile.go (heartbeat writer, IsStale, ReleaseIfStale, TryLock, Unlock)", "utils/filesystem files.go, filetimes.go", "utils/parallelisation", "avast/retry-go"},
-		Stub: []string{"disk: SimDisk; the 'OS-backed filesystem under I/O load' of the quantifier is represented by latency and stall injection on the holder's and observers' operations", "time: testing/synctest fake clock", "scheduling at afero.Fs granularity: seeded scheduler", "holder death: operations fail without effect after operation k + context cancelled"},
+		Real:        []string{"utils/filesystem lockfile.go (heartbeat writer, IsStale, ReleaseIfStale, TryLock, Unlock)", "utils/filesystem files.go, filetimes.go", "utils/parallelisation", "avast/retry-go"},
+		Stub:        []string{"disk: SimDisk; the 'OS-backed filesystem under I/O load' of the quantifier is represented by latency and stall injection on the holder's and observers' operations", "time: testing/synctest fake clock", "scheduling at afero.Fs granularity: seeded scheduler", "holder death: operations fail without effect after operation k + context cancelled"},
 		Assumptions: []string{"built with go1.26.8 (testing/synctest) instead of the pinned go1.24.1", "go-deadlock detection disabled", "real OS mtimes cannot follow the fake clock, hence SimDisk instead of afero.OsFs"},
 	})
 }
